@@ -427,9 +427,9 @@ class MaskScenario(WrapScenario):
 
 REPLAY_PROG = r'''
 import sys, json
-from cvxopt import matrix, blas, base
+from cvxopt import matrix, blas, base, lapack
 spec = json.loads(sys.argv[1])
-ns = {'matrix': matrix, 'blas': blas, 'base': base}
+ns = {'matrix': matrix, 'blas': blas, 'base': base, 'lapack': lapack}
 for s in spec['setup']: exec(s, ns)
 try:
     r = eval(spec['call'], ns)
